@@ -11,7 +11,7 @@
   of `Lemmas/C07LS.lean`.
 
   Round 3: the row relations are ASSEMBLED into statements about the design matrix of the whole
-  generated pass (`codeMatrix`) and its least-squares solution for the mirror, the circle rotation
+  generated pass (`codeMatrixOf`) and its least-squares solution for the mirror, the circle rotation
   and the translation (`Lemmas/C07Assemble.lean`), the statistics are transported (cofactors,
   "belongs to S", σ, error ellipse on the regenerated `std_error_ellipse`: `Lemmas/C07Cofactor.lean`),
   and the degrees clause is about the shared model `Gama.Angles.deg2gon` (C18).
@@ -117,16 +117,16 @@ theorem C07_index_first_use {K : Type} (name : Role → Coord → Unk) (evs : Li
     (runEvs name evs s).1.WF ∧ ∀ u, s.get u ≠ 0 → (runEvs name evs s).1.get u = s.get u :=
   ⟨runEvs_rows_final name evs s [] h (by simp) hw, (runEvs_wf name evs s h).1, (runEvs_wf name evs s h).2.2⟩
 
-/-- the design matrix `project_equations` builds (`codeMatrix`: row `r` = the `(index, coeff)` pairs
+/-- the design matrix `project_equations` builds (`codeMatrixOf`: row `r` = the `(index, coeff)` pairs
     of the `r`-th processed observation, columns `1..maxn` of the final index table) for two
     processing orders `σ`, `τ` of the same observations: `A_τ = A_σ.submatrix ρ κ` with the row
     permutation `ρ = σ⁻¹ ∘ τ` and the column renumbering `κ = index_σ ∘ index_τ⁻¹` (both tables
     index exactly the allocated unknowns `touchedSet`, whatever the order) -/
 theorem C07_permutation_matrix {K : Type} [Field K] {m : Nat} (obs : Fin m → Ob K)
     (hw : ∀ i, wellTouched (obs i).evs [] = true) (σ τ : Equiv.Perm (Fin m)) :
-    codeMatrix obs τ =
-      (codeMatrix obs σ).submatrix (τ.trans σ.symm) ((colEq obs hw τ).symm.trans (colEq obs hw σ)) :=
-  codeMatrix_perm obs hw σ τ
+    codeMatrixOf obs τ =
+      (codeMatrixOf obs σ).submatrix (τ.trans σ.symm) ((colEq obs hw τ).symm.trans (colEq obs hw σ)) :=
+  codeMatrixOf_perm obs hw σ τ
 
 /-- reordering observations (hence clusters, and — since points are numbered on first use — points):
     a solution of the problem generated in order `σ` (right-hand sides `rhs`, weights `W` attached to
@@ -137,12 +137,12 @@ theorem C07_permutation {K : Type} [Field K] {m : Nat} (obs : Fin m → Ob K)
     (hw : ∀ i, wellTouched (obs i).evs [] = true) (rhs : Fin m → K) (W : Matrix (Fin m) (Fin m) K)
     (σ τ : Equiv.Perm (Fin m)) (S : Finset (Fin (finalState obs σ).maxn))
     (x : Fin (finalState obs σ).maxn → K) (v : Fin m → K) (rtr : K)
-    (h : LS.IsLSSolution (codeMatrix obs σ) (rhs ∘ σ) (W.submatrix σ σ) S x v rtr) :
-    LS.IsLSSolution (codeMatrix obs τ) (rhs ∘ τ) (W.submatrix τ τ)
+    (h : LS.IsLSSolution (codeMatrixOf obs σ) (rhs ∘ σ) (W.submatrix σ σ) S x v rtr) :
+    LS.IsLSSolution (codeMatrixOf obs τ) (rhs ∘ τ) (W.submatrix τ τ)
       (S.map ((colEq obs hw τ).symm.trans (colEq obs hw σ)).symm.toEmbedding)
       (x ∘ ((colEq obs hw τ).symm.trans (colEq obs hw σ))) (v ∘ (τ.trans σ.symm)) rtr := by
   have := h.perm (τ.trans σ.symm) ((colEq obs hw τ).symm.trans (colEq obs hw σ))
-  rw [← codeMatrix_perm obs hw σ τ] at this
+  rw [← codeMatrixOf_perm obs hw σ τ] at this
   have e1 : (rhs ∘ σ) ∘ (τ.trans σ.symm) = rhs ∘ τ := by funext r; simp
   have e2 : (W.submatrix σ σ).submatrix (τ.trans σ.symm) (τ.trans σ.symm) = W.submatrix τ τ := by
     ext r c; simp
@@ -299,7 +299,7 @@ theorem C07_mirror_covariance (obs : List (Input.NetObs ℝ)) (d : Nat) (hd : d 
 
 /-- **translation, assembled**: the translated description of a whole pass (every point moved;
     observed `X`, `Y`, `Z` moved with it) linearises to exactly the same outputs, i.e. the same
-    design matrix `codeMatrix`, the same right-hand sides: the identical least-squares problem -/
+    design matrix `codeMatrixOf`, the same right-hand sides: the identical least-squares problem -/
 theorem C07_translation_assembled {m : Nat} (tx ty tz : ℝ) (fuel : Nat) (rows : Fin m → GenRow) (outs : Fin m → LinOut ℝ) :
     Linearises fuel (fun i => { rows i with o := trKind tx ty tz (rows i).kind (rows i).o }) outs ↔
       Linearises fuel rows outs :=
@@ -315,11 +315,11 @@ theorem C07_mirror_matrix {m : Nat} (fuel fuel' : Nat) (rows : Fin m → GenRow)
     (hg : ∀ i, guard (rows i).kind (rows i).o) (hname : ∀ i r c, ((rows i).name r c).c = c)
     (σ : Equiv.Perm (Fin m)) :
     ∃ (hT : ∀ i, touchedU (obOf rows outs' i) = touchedU (obOf rows outs i)),
-      codeMatrix (obOf rows outs') σ =
-        (diagonal (fun r => rowSgn (rows (σ r)).kind) * codeMatrix (obOf rows outs) σ *
+      codeMatrixOf (obOf rows outs') σ =
+        (diagonal (fun r => rowSgn (rows (σ r)).kind) * codeMatrixOf (obOf rows outs) σ *
           diagonal (fun j => mirrorSgn (colUnk (obOf rows outs) (obOf_wellTouched fuel rows outs hl hg) σ j).c)).submatrix
           (Equiv.refl _) (castCol (obOf rows outs) (obOf rows outs') hT σ) :=
-  mirror_codeMatrix fuel fuel' rows outs outs' hl hl' hg hname σ
+  mirror_codeMatrixOf fuel fuel' rows outs outs' hl hl' hg hname σ
 
 /-- **mirror, assembled (solution)**: if `(x, v, Φ)` is the least-squares solution of the pass
     (right-hand sides of the generated rows, any weight matrix `P`, regularisation subset `S`), then
@@ -335,9 +335,9 @@ theorem C07_mirror_assembled {m : Nat} (fuel fuel' : Nat) (rows : Fin m → GenR
     (hnb : ∀ i, (rows i).kind.angular = true → (outs i).rhs ≠ HALF) (σ : Equiv.Perm (Fin m))
     (P : Matrix (Fin m) (Fin m) ℝ) (S : Finset (Fin (finalState (obOf rows outs) σ).maxn))
     (x : Fin (finalState (obOf rows outs) σ).maxn → ℝ) (v : Fin m → ℝ) (rtr : ℝ)
-    (h : LS.IsLSSolution (codeMatrix (obOf rows outs) σ) (fun r => (outs (σ r)).rhs) P S x v rtr) :
+    (h : LS.IsLSSolution (codeMatrixOf (obOf rows outs) σ) (fun r => (outs (σ r)).rhs) P S x v rtr) :
     ∃ (hT : ∀ i, touchedU (obOf rows outs' i) = touchedU (obOf rows outs i)),
-      LS.IsLSSolution (codeMatrix (obOf rows outs') σ) (fun r => (outs' (σ r)).rhs)
+      LS.IsLSSolution (codeMatrixOf (obOf rows outs') σ) (fun r => (outs' (σ r)).rhs)
         (diagonal (fun r => rowSgn (rows (σ r)).kind) * P * diagonal (fun r => rowSgn (rows (σ r)).kind))
         (S.map (castCol (obOf rows outs) (obOf rows outs') hT σ).symm.toEmbedding)
         ((diagonal (fun j => mirrorSgn (colUnk (obOf rows outs) (obOf_wellTouched fuel rows outs hl hg) σ j).c) *ᵥ x) ∘
@@ -364,7 +364,7 @@ theorem C07_circle_rotation_nowrap {m : Nat} (fuel fuel' : Nat) (c : ℝ) (rows 
 /-- **circle rotation, assembled**: in a pass of observations of any classes, the directions `R` of
     one set (orientation unknown `uOri`, orientation unknown of no other row) are read `c` larger and
     none of them wraps.  Then the re-expressed pass builds literally the same observations-as-rows
-    (`obOf`, hence the same `codeMatrix`), and, when `uOri` is not in the regularisation subset, its
+    (`obOf`, hence the same `codeMatrixOf`), and, when `uOri` is not in the regularisation subset, its
     least-squares solution has the same coordinates, residuals and Φ and the orientation unknown
     smaller by `c·R2CC` (LS6 applied to the generated matrix) -/
 theorem C07_circle_rotation_assembled {m : Nat} (fuel fuel' : Nat) (c : ℝ) (rows : Fin m → GenRow)
@@ -377,11 +377,11 @@ theorem C07_circle_rotation_assembled {m : Nat} (fuel fuel' : Nat) (c : ℝ) (ro
     (hsmall : ∀ i ∈ R, |(outs i).rhs + c * R2CC| < HALF)
     (σ : Equiv.Perm (Fin m)) (P : Matrix (Fin m) (Fin m) ℝ) (S : Finset (Fin (finalState (obOf rows outs) σ).maxn))
     (x : Fin (finalState (obOf rows outs) σ).maxn → ℝ) (v : Fin m → ℝ) (rtr : ℝ)
-    (h : LS.IsLSSolution (codeMatrix (obOf rows outs) σ) (fun r => (outs (σ r)).rhs) P S x v rtr) :
+    (h : LS.IsLSSolution (codeMatrixOf (obOf rows outs) σ) (fun r => (outs (σ r)).rhs) P S x v rtr) :
     obOf rows (fun i => if i ∈ R then outs' i else outs i) = obOf rows outs ∧
     ∃ hu : uOri ∈ touchedSet (obOf rows outs),
       (colOf (obOf rows outs) (obOf_wellTouched fuel rows outs hl hg) σ uOri hu ∉ S →
-        LS.IsLSSolution (codeMatrix (obOf rows outs) σ) (fun r => (if σ r ∈ R then outs' (σ r) else outs (σ r)).rhs) P S
+        LS.IsLSSolution (codeMatrixOf (obOf rows outs) σ) (fun r => (if σ r ∈ R then outs' (σ r) else outs (σ r)).rhs) P S
           (x + (-(c * R2CC)) • Pi.single (colOf (obOf rows outs) (obOf_wellTouched fuel rows outs hl hg) σ uOri hu) 1)
           v rtr) :=
   rotation_solution fuel fuel' c rows outs outs' R hR uOri hori hg hname hdir hother hl hl' hsmall σ P S x v rtr h
@@ -402,15 +402,15 @@ theorem C07_swap_assembled {m : Nat} (obs obs' : Fin m → Ob ℝ)
       out'.rhs = out.rhs ∧
       (touchedU ⟨fun r c => name (swapRole r) c, out'.evs⟩).toFinset = (touchedU ⟨name, out.evs⟩).toFinset ∧
       ∀ u, identCoef ⟨fun r c => name (swapRole r) c, out'.evs⟩ u = identCoef ⟨name, out.evs⟩ u) ∧
-    codeMatrix obs' τ = (codeMatrix obs σ).submatrix (τ.trans σ.symm) (identCol obs obs' hw hw' hS σ τ) ∧
+    codeMatrixOf obs' τ = (codeMatrixOf obs σ).submatrix (τ.trans σ.symm) (identCol obs obs' hw hw' hS σ τ) ∧
     (∀ (rhs : Fin m → ℝ) (W : Matrix (Fin m) (Fin m) ℝ) (S : Finset (Fin (finalState obs σ).maxn))
       (x : Fin (finalState obs σ).maxn → ℝ) (v : Fin m → ℝ) (rtr : ℝ),
-      LS.IsLSSolution (codeMatrix obs σ) (rhs ∘ σ) (W.submatrix σ σ) S x v rtr →
-      LS.IsLSSolution (codeMatrix obs' τ) (rhs ∘ τ) (W.submatrix τ τ)
+      LS.IsLSSolution (codeMatrixOf obs σ) (rhs ∘ σ) (W.submatrix σ σ) S x v rtr →
+      LS.IsLSSolution (codeMatrixOf obs' τ) (rhs ∘ τ) (W.submatrix τ τ)
         (S.map (identCol obs obs' hw hw' hS σ τ).symm.toEmbedding)
         (x ∘ identCol obs obs' hw hw' hS σ τ) (v ∘ (τ.trans σ.symm)) rtr) :=
   ⟨fun fuel o name out out' h hok hok' => distance_swap_ident fuel o name out out' h hok hok',
-   codeMatrix_ident obs obs' hw hw' hS hc σ τ,
+   codeMatrixOf_ident obs obs' hw hw' hS hc σ τ,
    fun rhs W S x v rtr h => solution_ident obs obs' hw hw' hS hc σ τ rhs W S x v rtr h⟩
 
 /-! ## statistics -/
@@ -539,7 +539,7 @@ example : ∃ (fuel fuel' : Nat) (outs outs' : Fin 2 → LinOut ℝ),
   fin_cases i
   · show (outs 0).rhs ≠ HALF
     rw [h0]; unfold HALF; norm_num
-  · simp [witnessRows, Kind.angular] at hi
+  · simp [witnessRows, RowKind.angular] at hi
 
 /-- the assembled rotation theorem is not vacuous: the direction row of the same pass turned by
     50 gon stays inside the half circle (`|0 + 50 gon| < 200 gon`), its orientation unknown `⟨10, ori⟩`
